@@ -205,6 +205,11 @@ def _count_pass(context, hook):
     w = context.get("world") if isinstance(context, dict) else None
     if w is not None and hasattr(w, "schema_hook_calls"):
         w.schema_hook_calls.append(hook)
+    if w is not None and getattr(w, "deny_request", False):
+        # an authorisation-style schema directive: THIS request is rejected before anything runs
+        from vt.world import InjectedError
+        PASS_CALLS["denied"] = PASS_CALLS.get("denied", 0) + 1
+        raise InjectedError("request denied by the schema directive")
 
 
 class Bundle:
@@ -261,8 +266,14 @@ class Bundle:
             opts["custom_default_resolver"] = _default_resolver
         if self.s.custom_default_type_resolver and "custom_default_type_resolver" not in opts:
             opts["custom_default_type_resolver"] = _mk_type_resolver("cd", "default", self.label)
-        e = Engine(self.sdl, schema_name=self.name, **opts)
-        await e.cook()
+        ctor_name = getattr(self, "ctor_name", None)
+        if ctor_name:
+            # Engine(schema_name=X).cook(schema_name=Y): what is given to cook() wins
+            e = Engine(self.sdl, schema_name=ctor_name, **opts)
+            await e.cook(schema_name=self.name)
+        else:
+            e = Engine(self.sdl, schema_name=self.name, **opts)
+            await e.cook()
         self.engine = e
         return e
 
